@@ -1140,4 +1140,41 @@ theorem resRx_eq_resOf (o : Out) (h : o = .ok ∨ ∃ kd, o = .err kd) : resRx o
 def Settled (cfg : Cfg) (s : State) : Prop :=
   ∀ c, newEvents cfg s (.poll c) = []
 
+/-! ## the builder: every field is "last setter wins", independently of the other setters -/
+
+/-- the setter touches the cancellation flag -/
+def Setter.isCancel : Setter → Bool
+  | .cancel _ => true
+  | _ => false
+
+/-- the setter chooses the timeout source -/
+def Setter.isSource : Setter → Bool
+  | .cancel _ => false
+  | _ => true
+
+theorem foldl_cancel_keep (l : List Setter) (cfg : Cfg) (h : ∀ s ∈ l, s.isCancel = false) :
+    (l.foldl applySetter cfg).cancel = cfg.cancel := by
+  induction l generalizing cfg with
+  | nil => rfl
+  | cons s tl ih =>
+    simp only [List.foldl_cons]
+    rw [ih _ (fun s' hs' => h s' (List.mem_cons_of_mem _ hs'))]
+    have hs := h s List.mem_cons_self
+    cases s <;> simp_all [applySetter, Setter.isCancel]
+
+theorem foldl_source_keep (l : List Setter) (cfg : Cfg) (h : ∀ s ∈ l, s.isSource = false) :
+    (l.foldl applySetter cfg).timeout = cfg.timeout ∧ (l.foldl applySetter cfg).dyn = cfg.dyn := by
+  induction l generalizing cfg with
+  | nil => exact ⟨rfl, rfl⟩
+  | cons s tl ih =>
+    simp only [List.foldl_cons]
+    rw [(ih _ (fun s' hs' => h s' (List.mem_cons_of_mem _ hs'))).1,
+        (ih _ (fun s' hs' => h s' (List.mem_cons_of_mem _ hs'))).2]
+    have hs := h s List.mem_cons_self
+    cases s <;> simp_all [applySetter, Setter.isSource]
+
+theorem build_append_cons (pre post : List Setter) (s : Setter) :
+    build (pre ++ s :: post) = post.foldl applySetter (applySetter (build pre) s) := by
+  simp [build, List.foldl_append]
+
 end TR.TimeLimiter
